@@ -123,18 +123,17 @@ func (m *Machine) replay() {
 			if j.ShutdownSeq != 0 && j.ShutdownSeq < e.Seq {
 				m.fail("C11", "job #%d was waiting when shutdown began and is started afterwards (seq %d)", j.AcceptIdx, e.Seq)
 			}
-			// FIFO: no earlier accepted job of the pipeline is still waiting (unchanged definition)
-			if j.Waited {
-				for _, o := range order {
-					if o == j || o.Pipeline != p || o.AcceptIdx > j.AcceptIdx {
-						continue
-					}
-					if o.PipeGen != j.PipeGen || m.pipeGenAt(p, e.Seq) != j.PipeGen {
-						continue
-					}
-					if waitingAt(o, mon.startSeq[o.ID], e.Seq) {
-						m.fail("C06", "job #%d starts at seq %d while job #%d, accepted earlier, is still waiting", j.AcceptIdx, e.Seq, o.AcceptIdx)
-					}
+			// FIFO: no earlier accepted job of the pipeline is still waiting (unchanged definition). This also
+			// holds for a job that is started at once: with a free slot and no delay nobody can be waiting.
+			for _, o := range order {
+				if o == j || o.Pipeline != p || o.AcceptIdx > j.AcceptIdx {
+					continue
+				}
+				if o.PipeGen != j.PipeGen || m.pipeGenAt(p, e.Seq) != j.PipeGen {
+					continue
+				}
+				if waitingAt(o, mon.startSeq[o.ID], e.Seq) {
+					m.fail("C06", "job #%d starts at seq %d while job #%d, accepted earlier, is still waiting", j.AcceptIdx, e.Seq, o.AcceptIdx)
 				}
 			}
 			if j.Bad != "" {
